@@ -20,7 +20,7 @@ pub const TICK_FACTOR: u64 = 64;
 pub const TICK_CONST: u64 = 4096;
 
 const ENTRY: [&str; 6] = ["lzma one-shot", "lzma2 one-shot", "xz one-shot", "Stream", "raw LzmaDecoder", "raw Lzma2Decoder"];
-const SRC: [&str; 10] = [
+const SRC: [&str; 11] = [
     "uniformly random bytes",
     "random bytes behind a valid prologue",
     "valid stream, random mutations",
@@ -31,6 +31,7 @@ const SRC: [&str; 10] = [
     "huge announcements, no payload",
     "C05 / C08 inputs",
     "structured extremes: several size fields set to huge, mutually plausible values (CRCs repaired)",
+    "well-formed and left as it is: larger LZMA2 streams / .xz blocks, also with capped distances (output many times the announced dictionary)",
 ];
 
 #[derive(Clone)]
@@ -320,6 +321,32 @@ pub fn gen_case(rng: &mut Rng, tier: Tier) -> Case {
                     _ => continue,
                 }
             }
+            10 => {
+                // totality also covers the inputs that are simply valid: decode them to the end
+                match kind {
+                    0 => continue,
+                    1 => {
+                        let mut p = L2Params::standard(rng.range(2, 10) as usize, 300);
+                        if rng.chance(1, 2) {
+                            p.max_dist = *rng.pick(&[4096u64, 6144, 8192]);
+                            p.long_bias = true;
+                            p.w = [0, 3, 10, 3, 3, 0];
+                        }
+                        match lzma2::write(&gen_chunks(rng, &p)) {
+                            Ok(w) => {
+                                desc = format!("well-formed LZMA2 stream, {} bytes -> {} bytes", w.bytes.len(), w.output.len());
+                                w.bytes
+                            }
+                            Err(_) => continue,
+                        }
+                    }
+                    _ => {
+                        let (spec, d) = gen_xz(rng, &XzGenParams::standard(3));
+                        desc = format!("well-formed .xz: {}", d.chars().take(200).collect::<String>());
+                        spec.serialize().0
+                    }
+                }
+            }
             _ => {
                 if kind != 0 {
                     continue;
@@ -453,7 +480,7 @@ pub fn judge(c: &Case, m: &Measured, out: &mut CaseOut, cov: &mut Cov) {
     out.evals += 1;
     cov.inc("entry", c.entry as u32);
     cov.inc("source", c.src as u32);
-    cov.add("entry_x_source", (c.entry * 10 + c.src) as u32, 1);
+    cov.add("entry_x_source", (c.entry * 16 + c.src) as u32, 1);
     cov.inc("verdict", match &m.verdict { Verdict::Ok => 0, Verdict::Err(_) => 1, _ => 2 });
     cov.max("ticks", m.ticks);
     cov.max("produced", m.produced);
@@ -682,7 +709,7 @@ fn label(group: &str, i: u32) -> String {
     match group {
         "entry" => ENTRY[i as usize].to_string(),
         "source" => SRC[i as usize].to_string(),
-        "entry_x_source" => format!("{} | {}", ENTRY[(i / 10) as usize], SRC[(i % 10) as usize]),
+        "entry_x_source" => format!("{} | {}", ENTRY[(i / 16) as usize], SRC[(i % 16) as usize]),
         "verdict" => ["Ok", "Err", "abnormal"][i as usize].to_string(),
         _ => std_label(group, i),
     }
